@@ -32,6 +32,9 @@ type stats struct {
 	realBlockedDials int
 	realDeadlineEnds int
 	realOpDuringDial int
+	// ... OR a dial function of a NAMED dialer was called again for an address after
+	// a call of it for that address had failed (the configuration dimension)
+	realNamedRedials int
 }
 
 // longStreak is what the long part calls a long time (labels and its
@@ -126,6 +129,13 @@ type tstate struct {
 	attemptAt     *time.Duration // start of the attempt in progress / that failed last
 	streakStart   time.Duration  // Add, or the end of the last attempt longer than 2*RetryMaxDelay
 	streakRetries int
+
+	// the configuration dimension
+	addedAt     *time.Duration  // instant of the Add that began this incarnation, until its first attempt is seen
+	credOK      bool            // the attempt in progress began with a successful credentials lookup
+	failedDial  bool            // the pending failure is a Connection call that returned an error
+	cbSinceFail bool            // an error callback followed the pending failure (the attempt is over)
+	tried       map[string]bool // next hops asked for in the attempt in progress
 }
 
 const slack = time.Millisecond // float rounding of the jittered backoff interval (it may exceed its upper end by 1ns)
@@ -182,12 +192,17 @@ func judge(sc *Scenario, trace []Ev) (*stats, error) {
 	if sc.NoErrCB {
 		st.label("error-callbacks-nil")
 	}
+	configLabels(sc, st)
 	seen := map[int]bool{}
 	for i := range sc.Targets {
-		if seen[sc.Targets[i].Addr] {
-			st.label("shared-address")
+		for _, a := range sc.Targets[i].nextHops() {
+			if seen[a] {
+				st.label("shared-address")
+			}
 		}
-		seen[sc.Targets[i].Addr] = true
+		for _, a := range sc.Targets[i].nextHops() {
+			seen[a] = true
+		}
 		switch m := sc.Targets[i].Meta; {
 		case m == "":
 		case m == "0s":
@@ -221,6 +236,62 @@ func judge(sc *Scenario, trace []Ev) (*stats, error) {
 			return "mid-backoff"
 		}
 		return "other"
+	}
+
+	// attemptStart: e begins a new attempt of t (its credentials lookup, or its
+	// first Connection call). Clause: failed sessions are retried with backoff.
+	attemptStart := func(i int, e Ev, t *tstate) (*stats, error) {
+		t.addedAt = nil
+		t.tried = map[string]bool{}
+		t.credOK = false
+		if t.managed && t.pendingFail != nil {
+			gap := e.At - *t.pendingFail
+			if gap > bound+slack {
+				return fail(i, t, "retry-too-late", "next attempt starts %v after the failure at +%v; the bound is RetryMaxDelay*(1+RetryRandomization) = %v", gap, *t.pendingFail, bound)
+			}
+			if gap+slack < minDelay {
+				return fail(i, t, "retry-without-backoff", "next attempt starts %v after the failure at +%v; the smallest backoff interval is RetryBaseDelay*(1-RetryRandomization) = %v", gap, *t.pendingFail, minDelay)
+			}
+			if gap+slack >= ms(sc.MaxMs) && sc.MaxMs > sc.BaseMs {
+				st.label("backoff-reached-max")
+			}
+			if sc.RandPct == 0 && t.prevGap > 0 && gap < t.prevGap {
+				st.label("backoff-restarted-after-long-session")
+			}
+			t.prevGap = gap
+			st.label("retry")
+			if e.Kind == kCred {
+				st.label("retry-begins-with-credentials-lookup")
+			}
+			// how long (and over how many retries) the target has been failing without
+			// an attempt long enough to start the backoff afresh
+			if t.attemptAt != nil && *t.pendingFail-*t.attemptAt > 2*ms(sc.MaxMs) {
+				t.streakStart, t.streakRetries = *t.pendingFail, 0
+			}
+			t.streakRetries++
+			age := e.At - t.streakStart
+			switch {
+			case age >= 4*longStreak:
+				st.label("retry-judged-after-failing>=64min")
+				fallthrough
+			case age >= longStreak:
+				st.label("retry-judged-after-failing>=16min")
+			}
+			switch {
+			case t.streakRetries >= 100:
+				st.label("retry-judged-after>=100-failures-in-a-row")
+				fallthrough
+			case t.streakRetries >= 25:
+				st.label("retry-judged-after>=25-failures-in-a-row")
+			}
+			if age >= longStreak || minDelay >= longStreak {
+				st.lateRetries++
+			}
+		}
+		t.pendingFail = nil
+		at := e.At
+		t.attemptAt = &at
+		return nil, nil
 	}
 
 	for i, e := range trace {
@@ -260,6 +331,8 @@ func judge(sc *Scenario, trace []Ev) (*stats, error) {
 				// A fresh incarnation starts with the call, not with its return: the
 				// goroutine Add starts may act before the harness has recorded the return.
 				*t = tstate{name: t.name, everAdded: true, managed: true, timeout: t.timeout, attempts: t.attempts, sessions: t.sessions, streakStart: e.At}
+				at := e.At
+				t.addedAt = &at
 			}
 		case kAddRet:
 			if e.Info == "duplicate" {
@@ -293,8 +366,14 @@ func judge(sc *Scenario, trace []Ev) (*stats, error) {
 			if t.pendingFail != nil && e.At-*t.pendingFail > bound+slack {
 				return fail(i, t, "no-retry", "the failure at +%v was not followed by a new attempt although the target stayed managed for %v (> RetryMaxDelay*(1+RetryRandomization) = %v)", *t.pendingFail, e.At-*t.pendingFail, bound)
 			}
+			// Clause: Add starts the subscription (and Remove + Add starts afresh). Judged
+			// where every attempt begins with something the harness sees.
+			if t.addedAt != nil && e.At-*t.addedAt > bound+slack && sc.credVisible(&sc.Targets[idxOf(e.Tgt)]) {
+				return fail(i, t, "no-attempt-after-add", "the target was added at +%v and stayed managed for %v, yet no connection attempt was ever started for it", *t.addedAt, e.At-*t.addedAt)
+			}
 			t.managed = false
 			t.pendingFail = nil
+			t.addedAt = nil
 		case kRemoveRet:
 			if e.Info == "unknown" {
 				if e.Err == "" {
@@ -353,53 +432,50 @@ func judge(sc *Scenario, trace []Ev) (*stats, error) {
 					}
 				}
 			}
+		case kCred:
+			// the credentials lookup is the first thing an attempt does
+			if r, err := attemptStart(i, e, t); err != nil {
+				return r, err
+			}
+			if e.Err != "" {
+				st.label("cred-lookup-failed")
+				t.failedDial = false
+				if t.managed {
+					at := e.At
+					t.pendingFail = &at
+				}
+				break
+			}
+			t.credOK = true
+			if e.Info == "empty" {
+				st.label("cred-lookup-empty-password")
+			} else {
+				st.label("cred-lookup-ok")
+			}
 		case kDialStart:
 			t.attempts++
 			t.dialing = true
-			if t.managed && t.pendingFail != nil {
-				gap := e.At - *t.pendingFail
-				if gap > bound+slack {
-					return fail(i, t, "retry-too-late", "next attempt starts %v after the failure at +%v; the bound is RetryMaxDelay*(1+RetryRandomization) = %v", gap, *t.pendingFail, bound)
-				}
-				if gap+slack < minDelay {
-					return fail(i, t, "retry-without-backoff", "next attempt starts %v after the failure at +%v; the smallest backoff interval is RetryBaseDelay*(1-RetryRandomization) = %v", gap, *t.pendingFail, minDelay)
-				}
-				if gap+slack >= ms(sc.MaxMs) && sc.MaxMs > sc.BaseMs {
-					st.label("backoff-reached-max")
-				}
-				if sc.RandPct == 0 && t.prevGap > 0 && gap < t.prevGap {
-					st.label("backoff-restarted-after-long-session")
-				}
-				t.prevGap = gap
-				st.label("retry")
-				// how long (and over how many retries) the target has been failing without
-				// an attempt long enough to start the backoff afresh
-				if t.attemptAt != nil && *t.pendingFail-*t.attemptAt > 2*ms(sc.MaxMs) {
-					t.streakStart, t.streakRetries = *t.pendingFail, 0
-				}
-				t.streakRetries++
-				age := e.At - t.streakStart
-				switch {
-				case age >= 4*longStreak:
-					st.label("retry-judged-after-failing>=64min")
-					fallthrough
-				case age >= longStreak:
-					st.label("retry-judged-after-failing>=16min")
-				}
-				switch {
-				case t.streakRetries >= 100:
-					st.label("retry-judged-after>=100-failures-in-a-row")
-					fallthrough
-				case t.streakRetries >= 25:
-					st.label("retry-judged-after>=25-failures-in-a-row")
-				}
-				if age >= longStreak || minDelay >= longStreak {
-					st.lateRetries++
+			switch {
+			case t.credOK:
+				// the attempt began with its credentials lookup
+				t.credOK = false
+				t.tried = map[string]bool{}
+			case t.pendingFail != nil && t.failedDial && !t.cbSinceFail && e.At == *t.pendingFail && len(t.tried) > 0 && !t.tried[e.Info] &&
+				len(sc.Targets[idxOf(e.Tgt)].nextHops()) > 1:
+				// the same attempt goes on to the target's next next hop: the previous hop's
+				// Connection call failed at this very instant, no error was reported in
+				// between, and this hop has not been asked for in this attempt
+				st.label("next-hop-tried-after-failed-hop")
+				t.pendingFail = nil
+			default:
+				if r, err := attemptStart(i, e, t); err != nil {
+					return r, err
 				}
 			}
-			t.pendingFail = nil
-			at := e.At
-			t.attemptAt = &at
+			if t.tried == nil {
+				t.tried = map[string]bool{}
+			}
+			t.tried[e.Info] = true
 			if e.N >= scriptLen(sc.Targets[idxOf(e.Tgt)].Attempts) {
 				st.label("script-exhausted")
 			}
@@ -410,6 +486,7 @@ func judge(sc *Scenario, trace []Ev) (*stats, error) {
 				if t.managed {
 					t.pendingFail = &at
 				}
+				t.failedDial, t.cbSinceFail = true, false
 				switch e.Info {
 				case "refused":
 					st.label("dial-refused")
@@ -426,6 +503,7 @@ func judge(sc *Scenario, trace []Ev) (*stats, error) {
 		case kRelease:
 			st.label("conn-released")
 		case kOpen:
+			t.failedDial = false
 			if e.Err != "" {
 				at := e.At
 				if t.managed {
@@ -599,8 +677,10 @@ func judge(sc *Scenario, trace []Ev) (*stats, error) {
 			}
 			st.label("reset")
 		case kConnectError:
+			t.cbSinceFail = true
 			st.label("connect-error-callback")
 		case kMonitorError:
+			t.cbSinceFail = true
 			st.label("monitor-error-callback")
 		}
 	}
